@@ -89,7 +89,8 @@ def scalars(draw, dt, batch, positive=False):
     kind = draw(st.sampled_from(["pyfloat", "pyint", "t0d", "batched", "negative", "zero"]))
     if positive and kind in ("negative", "zero"):
         kind = "pyfloat"
-    if kind == "batched" and not batch:
+    wider = kind == "batched" and draw(st.integers(0, 2)) == 0  # constants with MORE batch dimensions than the operator
+    if kind == "batched" and not batch and not wider:
         kind = "t0d"
     if kind == "pyfloat":
         return {"kind": kind, "v": draw(st.integers(1, 24)) / 8.0}
@@ -104,6 +105,8 @@ def scalars(draw, dt, batch, positive=False):
     lo = 1 if positive else -16
     # a `... x 1 x 1` batch of constants: the full batch shape, or singletons in some (also non-leading) batch positions
     bshape = tuple(b if draw(st.integers(0, 2)) else 1 for b in batch)
+    if wider:
+        bshape = draw(st.sampled_from([(2,), (3,), (2, 1)])) + bshape
     vals = gen.grid(draw, bshape + (1, 1), lo, 16)
     return {"kind": "batched", "t": L.lit(vals, dt)}
 
@@ -311,8 +314,15 @@ def check(case):
             if k == "neg_mul":
                 s = {"kind": "negative", "v": -abs(s.get("v", 1.5)) if "v" in s else -1.5}
             sl, sr = _scalar_value(s)
-            if torch.is_tensor(sr) and sr.dim() > 0 and tuple(sr.shape[:-2]) != tuple(ref_a.shape[:-2]):
-                continue
+            if torch.is_tensor(sr) and sr.dim() > 0:
+                # a `... x 1 x 1` batch of constants whose batch shape BROADCASTS with the operand's (singletons, more or
+                # fewer dimensions) - anything else is not generated for this operand (the shape evolved): skip the step
+                try:
+                    torch.broadcast_shapes(tuple(sr.shape[:-2]), tuple(ref_a.shape[:-2]))
+                except RuntimeError:
+                    continue
+                if sr.dim() < 2 or tuple(sr.shape[-2:]) != (1, 1):
+                    continue
             if k == "div_scalar":
                 if (torch.is_tensor(sr) and bool((sr == 0).any())) or (not torch.is_tensor(sr) and sr == 0):
                     continue
